@@ -22,6 +22,7 @@ type KnownFinding struct {
 	Kind     string `json:"kind"`
 	Label    string `json:"label"`
 	Site     string `json:"site"` // regexp on the failure site
+	Class    string `json:"class,omitempty"` // regexp on the failure's scenario class
 	What     string `json:"what"`
 	Status   string `json:"status"` // "known" or "fixed"
 	Commit   string `json:"commit,omitempty"`
@@ -131,6 +132,11 @@ func matchKnown(kfs []KnownFinding, f *Failure) *KnownFinding {
 		}
 		if k.Site != "" {
 			if ok, _ := regexp.MatchString(k.Site, f.Site); !ok {
+				continue
+			}
+		}
+		if k.Class != "" {
+			if ok, _ := regexp.MatchString(k.Class, f.Class); !ok {
 				continue
 			}
 		}
@@ -260,7 +266,7 @@ func runCheck(o *Options, writeEvidence bool) int {
 		b, _ := json.MarshalIndent(f, "", " ")
 		os.WriteFile(path, b, 0o644)
 		fmt.Printf("VIOLATION property=%s replay=%s\n", f.Property, path)
-		fmt.Printf("  harness=%s kind=%s label=%s site=%s\n  detail=%s\n", f.Harness, f.Kind, f.Label, f.Site, f.Detail)
+		fmt.Printf("  harness=%s kind=%s label=%s site=%s class=%s count=%d\n  detail=%s\n  events=%v\n", f.Harness, f.Kind, f.Label, f.Site, f.Class, f.Count, f.Detail, f.Events)
 		exit = 1
 	}
 	for _, f := range unconfirmed {
@@ -320,7 +326,7 @@ func (w *Worker) confirm(h *Harness, f *Failure) bool {
 	in := w.newInterp(hh, prefix, model)
 	in.runPath()
 	for _, g := range in.failures {
-		if g.Kind == f.Kind && g.Label == f.Label && g.Site == f.Site {
+		if g.Kind == f.Kind && g.Label == f.Label && g.Site == f.Site && g.Class == f.Class {
 			return true
 		}
 	}
